@@ -125,6 +125,8 @@ class ProtocolRunner(object):
     """Runs one program against a fresh matcher, tracking the model position
     in the list model L, and raises Violation at the first disagreement."""
 
+    general_thresholds = False   # skip_to_quality(q>0) as BFS transitions (off: outside C11's alphabet)
+
     def __init__(self, make, L, reader, maxid):
         self.make = make
         self.L = L
@@ -135,6 +137,7 @@ class ProtocolRunner(object):
         self.m = self.make()
         self.pos = 0
         self.replaced = False
+        self.taint = None     # largest threshold given to skip_to_quality so far
         self.originals = []   # (matcher, pos) that must stay where they are
         self.check_here("fresh")
 
@@ -151,6 +154,16 @@ class ProtocolRunner(object):
                                 % (after, i, L[pos]["id"], [e["id"] for e in L]))
             e = self.reader.read(m)
             diff = entries_equal(L[pos], e)
+            if diff and self.taint is not None and diff in ("score", "weight", "terms", "spans", "value"):
+                # after skip_to_quality(q) an additive matcher may have moved
+                # one side past postings of entries that cannot beat q: such
+                # entries may read LOWER (a contribution is missing), never
+                # higher, and entries scoring more than q must read exactly
+                sc = L[pos].get("score")
+                if isinstance(sc, float) and sc <= self.taint * (1 + 1e-9) + 1e-12:
+                    got = e.get("score")
+                    if not isinstance(got, float) or got <= sc * (1 + 1e-9) + 1e-12:
+                        diff = None
             if diff:
                 raise Violation("read:" + diff, "after %s at id %r: %s read %r, fresh traversal read %r"
                                 % (after, i, diff, e.get(diff), L[pos].get(diff)))
@@ -169,6 +182,17 @@ class ProtocolRunner(object):
                     sq = False
                 if sq:
                     ops.append(("skip_to_quality", 0))
+                    # thresholds taken from the list itself: the score of the
+                    # current entry and the best remaining score (so the
+                    # matcher really has to move), applied to the LIVE object
+                    # whose id() has just been read (cached ids must be
+                    # refreshed by the skip)
+                    rest = [e.get("score") for e in self.L[self.pos:] if isinstance(e.get("score"), float)]
+                    if rest and self.general_thresholds:
+                        qs = sorted(set([rest[0], max(rest)]))
+                        for q in qs:
+                            if q > 0:
+                                ops.append(("skip_to_quality", q))
         ops.append(("replace", 0))
         ops.append(("copy",))
         ops.append(("copy_adv",))
@@ -179,6 +203,8 @@ class ProtocolRunner(object):
     def apply(self, op):
         m, L = self.m, self.L
         name = op[0]
+        if hasattr(self, "prog"):
+            self.prog.append(op)
         if name == "next":
             m.next()
             self.pos += 1
@@ -189,6 +215,32 @@ class ProtocolRunner(object):
             while p < len(L) and L[p]["id"] < t:
                 p += 1
             self.pos = p
+        elif name == "skip_to_quality" and op[1] != 0:
+            q = op[1]
+            self.taint = q if self.taint is None else max(self.taint, q)
+            m.skip_to_quality(q)
+            if m.is_active():
+                i = m.id()
+                idx = None
+                for j in range(self.pos, len(L)):
+                    if L[j]["id"] == i:
+                        idx = j
+                        break
+                if idx is None:
+                    raise Violation("skipq-off-list", "after skip_to_quality(%r) id()=%r is not a remaining entry "
+                                    "(remaining %r)" % (q, i, [e["id"] for e in L[self.pos:]]))
+                lost = [e["id"] for e in L[self.pos:idx] if e.get("score", 0) > q * (1 + 1e-9) + 1e-12]
+                if lost:
+                    raise Violation("skipq-lost", "skip_to_quality(%r) passed over entries %r scoring more" % (q, lost))
+                if idx != self.pos:
+                    self.moved_by_skipq = getattr(self, "moved_by_skipq", 0) + 1
+                self.pos = idx
+            else:
+                lost = [e["id"] for e in L[self.pos:] if e.get("score", 0) > q * (1 + 1e-9) + 1e-12]
+                if lost:
+                    raise Violation("skipq-lost", "skip_to_quality(%r) exhausted the matcher although entries %r "
+                                    "score more" % (q, lost))
+                self.pos = len(L)
         elif name == "skip_to_quality":
             # threshold 0 with all scores > 0: nothing may be passed over
             if all(e.get("score", 1.0) > 0 for e in L[self.pos:]):
@@ -213,6 +265,7 @@ class ProtocolRunner(object):
         elif name == "reset":
             m.reset()
             self.pos = 0
+            self.taint = None
         else:
             raise ValueError(op)
         self.check_here(repr(op))
@@ -225,11 +278,32 @@ class ProtocolRunner(object):
 
     def run(self, prog):
         self.fresh()
+        self.prog = []
         for op in prog:
             self.apply(op)
 
+    def blind(self, prog):
+        """Applies the moving ops of prog to a fresh matcher WITHOUT reading
+        anything in between (no id()/score() calls that could warm caches)."""
+        m = self.make()
+        for op in prog:
+            name = op[0]
+            if name == "next":
+                m.next()
+            elif name == "skip_to":
+                m.skip_to(op[1])
+            elif name == "skip_to_quality":
+                m.skip_to_quality(op[1])
+            elif name == "replace":
+                m = m.replace()
+            elif name == "copy":
+                m = m.copy()
+            elif name == "reset":
+                m.reset()
+        return m
+
     def key(self):
-        return (mdigest(self.m), self.pos, self.replaced,
+        return (mdigest(self.m), self.pos, self.replaced, self.taint,
                 tuple((mdigest(om), op) for om, op in self.originals))
 
 
